@@ -30,8 +30,15 @@ Next == \/ ch = 0 /\ l = 0 /\ ch' \in 1..NCH /\ l' = 0
         \/ ch > 0 /\ l = 0 /\ ch' = ch /\ l' \in { k \in 1..Len(Trace) : k % NCH = ch - 1 }
 
 Expected(e) == Match(RuleOfJson(e.rule), ReqOfJson(e.req))
+\* the third-party flag the real request carried is logged with the event; it has to be the one Request.tla derives
+\* from the two hostnames and their Public Suffix List answers (Request!Fields.thirdParty)
+DerivedThird(q) == /\ q.src # <<>>
+                   /\ LET d == DomainOf(q.host, q.hostPsl) sd == DomainOf(q.src, q.srcPsl) IN sd # <<>> /\ sd # d
+ThirdOKEvent(e) == e.req.hostreq \/ e.req.thirdParty = DerivedThird(e.req)
 Allowed == l > 0 =>
     LET e == Trace[l]
         x == Expected(e)
-    IN (e.res = x) \/ ~PrintT(ToJson([kind |-> "REJECT", l |-> l, spec |-> x, code |-> e.res]))
+    IN /\ (e.res = x) \/ ~PrintT(ToJson([kind |-> "REJECT", l |-> l, spec |-> x, code |-> e.res]))
+       /\ ThirdOKEvent(e) \/ ~PrintT(ToJson([kind |-> "REJECT", l |-> l, spec |-> [thirdParty |-> DerivedThird(e.req)],
+                                                code |-> [thirdParty |-> e.req.thirdParty]]))
 =============================================================================
